@@ -73,8 +73,8 @@ Step(cfg, g, e) ==
     [] e.op \in {"REL", "RELDIRECT"} ->   \* ends the binding; an offer of that same address is withdrawn with it
          [g EXCEPT !.bound[c] = NoRec, !.sticky[c] = @ \ {g.bound[c].ip},
                    !.offer[c] = IF g.offer[c].ip = g.bound[c].ip THEN NoRec ELSE @]
-    [] e.op \in {"DECL", "DECLU"} ->   \* a DECLINE counts only for the address the client is bound to
-         IF g.bound[c].ip # None /\ g.bound[c].ip = e.req
+    [] e.op \in {"DECL", "DECLU"} ->   \* a DECLINE counts only for the address the client is bound to (unexpired)
+         IF g.bound[c].ip # None /\ g.bound[c].ip = e.req /\ Unexpired(cfg, g, c)
          THEN [g EXCEPT !.bound[c] = NoRec, !.declined = @ \cup {e.req}, !.touched = @ \cup {e.req}, !.sticky[c] = @ \ {e.req},
                         !.offer[c] = IF g.offer[c].ip = e.req THEN NoRec ELSE @]
          ELSE [g EXCEPT !.touched = @ \cup {e.req}]
